@@ -366,6 +366,20 @@ def check_crate(fx, rep, crate, tag):
                   'after a read-cursor advance the loop can return Ok without, or read the transport again despite, a NUL as the '
                   'last received byte (frames would be left behind / requested while buffered)', detail)
         # R01.3 sentinel store on every path advance -> Ok exit
+        def origin(op):
+            tr = body.trace(op)
+            if tr.get('kind') == 'bin':
+                return ('bin', tr.get('block'), tr.get('stmt'))
+            if tr.get('kind') == 'local':
+                return ('local', tr.get('l'))
+            return None
+
+        adv_origins = {origin(s_['rv']['op']) for b_, i_, s_ in advances if s_['rv']['k'] == 'use'} - {None}
+
+        def same_as_advance(op):
+            # `let filled = read_pos + n; self.read_pos = filled; buffer[filled] = 0`: the index is the very value stored to the read cursor
+            o = origin(op)
+            return o is not None and o in adv_origins
         sent = []
         for b, i, s in body.iter_assigns():
             rv = s['rv']
@@ -373,7 +387,7 @@ def check_crate(fx, rep, crate, tag):
                 # (*tmp) = 0 where tmp = index_mut(&mut buffer, read_cursor)
                 tr2 = body.trace_place({'l': s['place']['l'], 's': '', 'p': None})
                 if tr2.get('kind') == 'call' and 'index_mut' in (tr2['callee'].get('name') or ''):
-                    if C.trace_field(body, tr2['args'][0], RC) == buffer_field and C.trace_field(body, tr2['args'][1], RC) == read_cursor:
+                    if C.trace_field(body, tr2['args'][0], RC) == buffer_field and (C.trace_field(body, tr2['args'][1], RC) == read_cursor or same_as_advance(tr2['args'][1])):
                         sent.append(b)
         ok_s = bool(sent) and bool(ok_exits) and all(C.paths_all_pass(body, ab, e, sent) for e in ok_exits)
         rep.check(ok_s, 'R01.3', '%s|sentinel-store|%s' % (fk, tag), C.where(body, sent[0]) if sent else C.where(body, ab),
@@ -390,7 +404,7 @@ def check_crate(fx, rep, crate, tag):
             info = body.switch_info(sw)
             if not info or info.get('kind') != 'cmp' or info['op'] not in ('Eq', 'Ge', 'Ne', 'Lt'):
                 continue
-            a_is_rc = info['a'].get('kind') == 'place' and any(n == read_cursor for _, n in info['a'].get('fields', []))
+            a_is_rc = (info['a'].get('kind') == 'place' and any(n == read_cursor for _, n in info['a'].get('fields', []))) or same_as_advance(info['a_op'])
             b_is_len = info['b'].get('kind') == 'call' and (info['b']['callee'].get('name') in ('len', 'capacity')) and \
                 C.trace_field(body, info['b']['args'][0], RC) == buffer_field
             if not (a_is_rc and b_is_len):
